@@ -12,7 +12,8 @@ RULE = ("twin: dimension-wise density estimation (SpatiallyAdaptiveSingleDimensi
         "GlobalTrapezoidalGrid without boundary points) is run twice on the same data (2D, thorough also 3D; 20-80 samples; "
         "uniform / clustered / snapped-to-grid-lines / 'lattice' = copies of M/5 distinct sites, half of them on k/16 "
         "(exact duplicates whose labels are drawn independently per copy, so one site carries both labels) inside (0,1)^d with "
-        "pre_scaled_data=True, or raw data that the library min-max scales itself), lambda, class signs on/off, mass lumping on/off, rebalancing on/off, (lmin,lmax) in "
+        "pre_scaled_data=True, or raw data that the library min-max scales itself), lambda, class labelling (none / +1,-1 / the one-vs-others weights +1 and max(-1,-n_class/n_others) of "
+        "DataSet.split_one_vs_others / arbitrary real weights from {0.5,2,-3,0,1,-1,-0.25}), mass lumping on/off, rebalancing on/off, (lmin,lmax) in "
         "{(2,4),(2,5),(3,4),(3,5)}, with reuse_old_values False and True; the refinement decisions of both runs come from the "
         "same scripted decision tape, so the histories are identical by construction. 40% of the cases are 'directed': "
         "lmin=3,lmax=5 (grids of 105..225 points, the last-set grid >=200 so that every sa(points) takes the large "
@@ -33,11 +34,17 @@ RULE = ("twin: dimension-wise density estimation (SpatiallyAdaptiveSingleDimensi
         "(harness-only copies of the library functions whose local constant `threshold = 200` is replaced by 0 or 10**9; the "
         "unmodified function must reproduce the forced branch of its size class bit for bit) and compared with each other; "
         "an independent tensor-hat reference only names the deviating branch. Non-trivial = grid size within [150,260], "
-        "non-uniform or anisotropic grid, and >=1 sample / evaluation point exactly on a grid line. Distinct = distinct case dict.")
+        "non-uniform or anisotropic grid, and >=1 sample / evaluation point exactly on a grid line. "
+        "standard: StandardCombi + DensityEstimation (uniform grids, 1-3 schemes (lmin,lmax) computed in a row on the same "
+        "objects, all labellings) with reuse off vs on: schemes, surpluses and combi(points) equal; records whether the reuse "
+        "branch of the uniform-grid calculate_B is ever entered. Non-trivial = >=2 schemes, a grid >=200 points and the old "
+        "right-hand sides were looked up. Distinct = distinct case dict.")
 ASSUMPTIONS = [
     "boundary=False, modified_basis=False, numeric_calculation=False (the analytic matrix entries; the numeric variant "
     "integrates every entry with scipy.nquad and is ~1000x too slow for a twin run)",
-    "class signs are a numpy array of +-1 containing both signs (what test_dim_wise_run_classification passes)",
+    "class labels are a numpy array of per-sample weights: +-1 (test_dim_wise_run_classification), the one-vs-others weights "
+    "the library computes itself (DataSet.split_one_vs_others: +1 / max(-1,-n_class/n_others)), and arbitrary real weights "
+    "incl. 0 (every non-reuse branch multiplies the hat value with the label value, so the unchanged library accepts them)",
     "refinement decisions are scripted (errorOperator extension point) so that both twin runs take identical decisions; "
     "identity of scheme and grid points is nevertheless asserted after every evaluation",
     "tolerances: R 1e-7*max|R| (a cached entry was computed at another position of the grid and the analytic formula "
@@ -101,6 +108,35 @@ def ref_interp(alphas, stripes, pts):
 # ------------------------------------------------------------------------------------------------------------
 # data
 # ------------------------------------------------------------------------------------------------------------
+LABEL_KINDS = ["none", "pm1", "ovo", "real"]
+REAL_WEIGHTS = [0.5, 2.0, -3.0, 0.0, 1.0, -1.0, -0.25]
+
+
+def labels_kind(case):
+    """class labelling of a case: 'none', 'pm1' (+1/-1), 'ovo' (+1 for the class, max(-1, -n_class/n_others) for the others:
+    the weights DataSet.split_one_vs_others computes), 'real' (arbitrary real weights incl. 0).  Old cases carry `classes`."""
+    return case.get("labels", "pm1" if case.get("classes") else "none")
+
+
+def make_signs(rng, M, kind):
+    if kind == "none":
+        return None
+    if kind == "pm1":
+        signs = np.where(rng.uniform(size=M) < 0.5, -1.0, 1.0)
+        signs[0], signs[1] = 1.0, -1.0
+    elif kind == "ovo":
+        n_class = int(min(M - 2, max(2, round(rng.uniform(0.12, 0.62) * M))))
+        w = max(-1.0, -n_class / float(M - n_class))            # clipped to -1 for the majority class
+        signs = np.full(M, w)
+        members = rng.permutation(np.arange(2, M))[:n_class - 1]
+        signs[members] = 1.0
+        signs[0] = 1.0                                          # sample 0 in the class, sample 1 among the others
+    else:
+        signs = rng.choice(REAL_WEIGHTS, size=M)
+        signs[0], signs[1] = 0.5, -3.0
+    return signs
+
+
 def mixed_duplicates(x, signs):
     """(number of sites that occur more than once, number of those whose copies carry both labels)"""
     groups = {}
@@ -144,10 +180,7 @@ def make_data(case):
         x = shift + scale * x
         x[0, 0] = shift[0] - 0.5            # guarantees a value outside [0,1] so that initialize() does scale
         pre_scaled = False
-    signs = None
-    if case["classes"]:
-        signs = np.where(rng.uniform(size=M) < 0.5, -1.0, 1.0)
-        signs[0], signs[1] = 1.0, -1.0
+    signs = make_signs(rng, M, labels_kind(case))
     pts = rng.uniform(0.01, 0.99, size=(24, dim))
     dy = rng.integers(1, 16, size=(6, dim)) / 16.0
     ends = rng.uniform(0.01, 0.99, size=(16, dim))      # one coordinate close to a domain end (where one-sided
@@ -404,6 +437,10 @@ def run_twin(case):
     if case.get("directed"):
         out.cls("directed-one-sided-refinement")
     data_, _, signs_, _ = make_data(case)
+    if signs_ is not None and np.any(np.abs(np.abs(signs_) - 1.0) > 0):
+        out.cls("labels!=+-1")
+        if s["reuse_rhs"]:
+            out.cls("labels!=+-1&reuse&grid>=200&evaluation>=1")
     ndup, nmixed = mixed_duplicates(data_, signs_)
     if ndup:
         out.cls("duplicate-sites")
@@ -411,7 +448,7 @@ def run_twin(case):
         out.cls("duplicate-sites-with-mixed-labels")
         if s["big"]:
             out.cls("duplicate-sites-with-mixed-labels-on-grid>=200")
-    out.cls("evals=%d" % min(s["evals"], 4), "data=%s" % case["data"], "classes=%s" % case["classes"],
+    out.cls("evals=%d" % min(s["evals"], 4), "data=%s" % case["data"], "labels=%s" % labels_kind(case),
             "masslumping=%s" % case["masslumping"], "rebalancing=%s" % case["rebalancing"], "d=%d" % case["dim"],
             "lmin,lmax=%d,%d" % (case["lmin"], case["lmax"]))
     out.info = dict(max_evaluations=s["evals"], rhs_copies=s["reuse_rhs"], max_rel_dR=s["max_dR"], max_dB_equal=s["max_dB"],
@@ -434,7 +471,8 @@ def twin_strategy(tier):
         directed = draw(st.sampled_from([False, False, False, True, True]))
         kind = draw(st.sampled_from(["uniform", "clustered", "snapped", "minmax", "minmax", "lattice", "lattice"]))
         common = dict(M=draw(st.integers(20, 80)), data=kind,
-                      classes=draw(st.sampled_from([True, True, True, False]) if kind == "lattice" else st.booleans()), lambd=draw(st.sampled_from([0.01, 0.0, 1e-4, 0.1, 1.0])),
+                      labels=draw(st.sampled_from(["pm1", "ovo", "real", "none"] if kind == "lattice" else
+                                                  ["none", "none", "pm1", "pm1", "ovo", "ovo", "real"])), lambd=draw(st.sampled_from([0.01, 0.0, 1e-4, 0.1, 1.0])),
                       safety=draw(st.sampled_from([0.1, 0.0, 0.2])), rng=draw(st.integers(0, 10 ** 6)))
         if directed:
             # one-sided refinement towards a point next to a domain end on grids beyond the threshold, default rebalancing:
@@ -464,7 +502,13 @@ def twin_fixed():
             # one-sided refinement towards x = (0.006, 0.006) with default rebalancing on the lmin=3,lmax=5 scheme: component
             # grids swap a coordinate at unchanged shape at evaluations 2 and 3, all interpolations take the >=200 branch
             dict(dim=2, lmin=3, lmax=5, directed=True, M=60, data="uniform", classes=False, lambd=0.01, masslumping=True,
-                 rebalancing=True, margin=0.9, safety=0.0, maxsteps=4, budget=800000, tape=[0, 0, 57, 7], mode=5, rng=0)]
+                 rebalancing=True, margin=0.9, safety=0.0, maxsteps=4, budget=800000, tape=[0, 0, 57, 7], mode=5, rng=0),
+            # weighted labels (one-vs-others weights / arbitrary real weights) on histories whose second evaluation
+            # recomputes right-hand-side entries through the reuse branch on grids of 189..225 points
+            dict(dim=2, lmin=2, lmax=5, M=50, data="uniform", labels="ovo", lambd=0.01, masslumping=True, rebalancing=False,
+                 margin=0.5, safety=0.1, maxsteps=1, budget=450000, tape=[0], mode=4, rng=2),
+            dict(dim=2, lmin=3, lmax=4, M=40, data="lattice", labels="real", lambd=0.01, masslumping=False, rebalancing=True,
+                 margin=0.5, safety=0.1, maxsteps=1, budget=450000, tape=[0], mode=4, rng=3)]
 
 
 # ------------------------------------------------------------------------------------------------------------
@@ -544,10 +588,7 @@ def paths_data(case, stripes, rng):
         for d in range(dim):
             x[int(np.argmin(x[:, d])), d] = 0.0
             x[int(np.argmax(x[:, d])), d] = 1.0
-    signs = None
-    if case["classes"]:
-        signs = np.where(rng.uniform(size=M) < 0.5, -1.0, 1.0)
-        signs[0], signs[1] = 1.0, -1.0
+    signs = make_signs(rng, M, labels_kind(case))
     return x, signs
 
 
@@ -635,7 +676,7 @@ def run_paths(case):
     if nmixed:
         out.cls("duplicate-sites-with-mixed-labels")
     out.cls("kind=%s" % case["kind"], "N>=200" if N >= THRESHOLD else "N<200", "data=%s" % case["data"],
-            "classes=%s" % case["classes"], "d=%d" % dim)
+            "labels=%s" % labels_kind(case), "d=%d" % dim)
     if case["boundary_pts"]:
         out.cls("evaluation-points-on-boundary")
     if max(r1, r2) > TOL_PATH and not out.violations:
@@ -655,7 +696,8 @@ def paths_strategy(tier):
         kind = draw(st.sampled_from(["dw", "dw", "uniform"]))
         dkind = draw(st.sampled_from(["snapped", "edge", "inside", "lattice", "lattice"]))
         case = dict(kind=kind, M=draw(st.integers(20, 80)), data=dkind,
-                    classes=draw(st.sampled_from([True, True, True, False]) if dkind == "lattice" else st.booleans()), npts=draw(st.integers(12, 40)), boundary_pts=draw(st.booleans()),
+                    labels=draw(st.sampled_from(["pm1", "ovo", "real", "none"] if dkind == "lattice" else
+                                                ["none", "pm1", "pm1", "ovo", "real"])), npts=draw(st.integers(12, 40)), boundary_pts=draw(st.booleans()),
                     rng=draw(st.integers(0, 10 ** 6)))
         if kind == "uniform":
             case["levelvec"] = list(draw(st.sampled_from(UNIFORM_2D if dim == 2 else UNIFORM_3D)))
@@ -671,6 +713,88 @@ def paths_strategy(tier):
             n = draw(st.permutations(n))
             case["splits"] = [draw(st.lists(st.integers(0, 63), min_size=k - 1, max_size=k - 1)) for k in n]
         return case
+    return s()
+
+
+# ------------------------------------------------------------------------------------------------------------
+# standard combination technique: reuse on vs off (the uniform-grid calculate_B has a reuse branch of its own)
+# ------------------------------------------------------------------------------------------------------------
+def run_standard(case):
+    from sparseSpACE.StandardCombi import StandardCombi
+    from sparseSpACE.GridOperation import DensityEstimation
+    out = Outcome()
+    sub = "standard"
+    data, pre_scaled, signs, pts = make_data(case)
+    dim = case["dim"]
+    res = {}
+    for reuse in (False, True):
+        op = DensityEstimation(data.copy(), dim, masslumping=case["masslumping"], lambd=case["lambd"],
+                               classes=None if signs is None else signs.copy(), reuse_old_values=reuse,
+                               pre_scaled_data=pre_scaled, log_level=Q, print_level=Q)
+        keys = []
+        o_find = op.find_closest_old_B
+
+        def w_find(stripes, o_find=o_find, keys=keys):
+            key = o_find(stripes)
+            keys.append(key)
+            return key
+        op.find_closest_old_B = w_find
+        combi = StandardCombi(np.zeros(dim), np.ones(dim), operation=op, print_level=Q, log_level=Q)
+        snaps = []
+        for lmin, lmax in case["levels"]:               # the same object may be asked for several schemes in a row
+            with drive.quiet():
+                combi.perform_operation(lmin, lmax)
+                dens = np.array(combi(pts), dtype=float).reshape(-1)
+            snaps.append(dict(scheme=sorted((tuple(int(x) for x in cg.levelvector), cg.coefficient) for cg in combi.scheme),
+                              sur={tuple(int(x) for x in cg.levelvector): np.array(op.surpluses[tuple(cg.levelvector)], dtype=float)
+                                   for cg in combi.scheme}, dens=dens))
+        res[reuse] = (snaps, keys)
+    entered = any(k is not None for k in res[True][1])
+    maxN = 0
+    for k, (x, y) in enumerate(zip(res[False][0], res[True][0])):
+        tag = "scheme %d %s" % (k, case["levels"][k])
+        if x["scheme"] != y["scheme"]:
+            out.bad(sub + "/scheme/differs", tag)
+            break
+        for lv in x["sur"]:
+            maxN = max(maxN, len(x["sur"][lv]))
+            dS = float(np.max(np.abs(x["sur"][lv] - y["sur"][lv])))
+            if not dS <= TOL_S * float(np.max(np.abs(x["sur"][lv]))):
+                out.bad(sub + "/surpluses/reuse-differs" + ("-old-rhs-copied" if entered else ""),
+                        "%s grid %s N=%d: max diff %.3e" % (tag, lv, len(x["sur"][lv]), dS))
+                break
+        dD = float(np.max(np.abs(x["dens"] - y["dens"])))
+        if not out.violations and not dD <= TOL_S * max(1.0, float(np.max(np.abs(x["dens"])))):
+            out.bad(sub + "/density/reuse-differs", "%s max diff %.3e" % (tag, dD))
+    out.nontrivial = len(res[True][1]) > 0 and maxN >= THRESHOLD and len(case["levels"]) >= 2
+    out.cls("labels=%s" % labels_kind(case), "schemes=%d" % len(case["levels"]), "data=%s" % case["data"])
+    if res[True][1]:
+        out.cls("old-rhs-looked-up")
+    if entered:
+        out.cls("uniform-reuse-branch-entered")
+    if signs is not None and np.any(np.abs(np.abs(signs) - 1.0) > 0):
+        out.cls("labels!=+-1")
+    out.info = dict(max_N=maxN, lookups=len(res[True][1]))
+    return out
+
+
+def standard_strategy(tier):
+    @st.composite
+    def s(draw):
+        dim = 2 if tier == "quick" else draw(st.sampled_from([2, 2, 3]))
+        n = draw(st.integers(1, 3))
+        if dim == 2:
+            choices = [(1, 3), (2, 4), (3, 5), (3, 5), (2, 5), (3, 4)]
+        else:
+            choices = [(1, 2), (1, 3), (2, 3), (1, 4), (2, 4)]
+        levels = [list(draw(st.sampled_from(choices))) for _ in range(n)]
+        big = any(l[1] >= 5 for l in levels) or dim == 3      # the full uniform R matrix costs ~7 s beyond 200 points
+        return dict(dim=dim, levels=levels, M=draw(st.integers(20, 80)),
+                    data=draw(st.sampled_from(["uniform", "clustered", "snapped", "minmax", "lattice"])),
+                    labels=draw(st.sampled_from(["none", "pm1", "ovo", "ovo", "real", "real"])),
+                    lambd=draw(st.sampled_from([0.01, 0.0, 0.1])),
+                    masslumping=True if big else draw(st.sampled_from([True, False, False])),
+                    rng=draw(st.integers(0, 10 ** 6)))
     return s()
 
 
@@ -726,6 +850,7 @@ def selftest():
 
 SUBS = [
     Sub("twin", twin_strategy, run_twin, dict(quick=160, thorough=1600), case_timeout=300,
-        budget_s=dict(quick=50, thorough=560), fixed_cases=twin_fixed),
+        budget_s=dict(quick=45, thorough=560), fixed_cases=twin_fixed),
     Sub("paths", paths_strategy, run_paths, dict(quick=480, thorough=6000), budget_s=dict(quick=15, thorough=120)),
+    Sub("standard", standard_strategy, run_standard, dict(quick=64, thorough=1200), budget_s=dict(quick=8, thorough=90)),
 ]
